@@ -28,6 +28,11 @@ type prunedNode struct {
 	n        *Node
 	pdb      *faultdb.DB // the pruner service's own view of the store: its commits are told apart from the harness's by the wrapper they go through, not by a flag two goroutines would race on
 	gate     sync.Mutex  // held by the harness while it is inside one of its own operations: the pruner's commits wait until the harness is parked
+	// hold parks the pruner (durably, on resume) before every commit: the harness then decides at
+	// which of its own reads the prune makes progress
+	hold   bool
+	parked bool
+	resume chan struct{}
 	floor    *pruner.RetentionFloor
 	heads    *feed.Feed[*core.Block]
 	cancel   context.CancelFunc
@@ -54,6 +59,7 @@ func (p *prunedNode) attach(st *Store) {
 		blockchain.WithRunningEventFilterInitializer(pruner.InitializeRunningEventFilter))
 	p.n, p.floor = n, floor
 	p.heads = feed.New[*core.Block]()
+	p.hold, p.parked, p.resume = false, false, make(chan struct{})
 	ctx, cancel := context.WithCancel(context.Background())
 	p.cancel = cancel
 	p.done = make(chan struct{})
@@ -69,8 +75,15 @@ func (p *prunedNode) attach(st *Store) {
 }
 
 func (p *prunedNode) stop() {
+	p.hold = false
 	p.cancel()
-	<-p.done
+	for {
+		select {
+		case <-p.done:
+			return
+		case p.resume <- struct{}{}: // a pruner parked before a commit (the run ended inside a race step)
+		}
+	}
 }
 
 // belowFloor: an accessor of a pruned block may fail, or return the complete stored value - never
@@ -240,6 +253,11 @@ func C16(c *sim.Ctx) {
 			// the pruner runs on its own goroutine: it commits only while the harness is parked
 			p.gate.Lock()
 			p.gate.Unlock() //nolint:staticcheck // gate, not a critical section
+			if p.hold {
+				p.parked = true
+				<-p.resume
+				p.parked = false
+			}
 			if failAt == 0 {
 				return
 			}
@@ -341,8 +359,23 @@ func C16(c *sim.Ctx) {
 	}
 
 	steps := 8 + t.Draw("steps", 30)
+	// "long backlog" scenario: the chain grows to 14..25 blocks before any L1 head is recorded (no
+	// prune so far), then the race step below lets the first, large prune run inside a reader
+	backlog := 0
+	if t.Draw("race.scenario", 6) == 5 {
+		backlog = 14 + t.Draw("race.backlog", 12)
+		c.Probe("long_backlog_scenario")
+	}
 	for s := 0; s < steps; s++ {
-		op := t.Draw("op", 16)
+		op := t.Draw("op", 18)
+		if backlog > 0 {
+			switch {
+			case len(m.Chain) < backlog:
+				op, s = 0, s-1 // build the backlog first (does not count as a step)
+			default:
+				op, backlog = 16, -1 // the race step comes next, in its sharpest form
+			}
+		}
 		lock()
 		switch {
 		case op <= 6 || len(m.Chain) == 0:
@@ -367,8 +400,16 @@ func C16(c *sim.Ctx) {
 			noteBound()
 			p.heads.Send(CloneBlock(b.B))
 		case op <= 8:
-			// the chain can be reverted down to the floor
-			if uint64(len(m.Chain)) <= lastOldest+1 || len(m.Chain) <= 1 {
+			// the chain can be reverted down to the floor. After a failed (interrupted) prune the
+			// node's floor is the one that prune was entitled to, although the database still holds
+			// older blocks: reverting the floor block itself would take the head below the floor,
+			// which the property does not promise (found by the thorough tier: the node then refuses
+			// state reads below its floor, as it should).
+			revFloor := lastOldest
+			if injectPruneError && allowed > int64(revFloor) {
+				revFloor = uint64(allowed)
+			}
+			if uint64(len(m.Chain)) <= revFloor+1 || len(m.Chain) <= 1 {
 				continue
 			}
 			h := m.Head()
@@ -410,6 +451,87 @@ func C16(c *sim.Ctx) {
 				c.Fail("valid_op_failed", "set L1", "SetL1Head: %v", err)
 			}
 			m.L1Head = lh
+		case op >= 16:
+			// A reader races a prune: the node restarts (its event index is rebuilt lazily by the
+			// first query), an L1 head entitles a prune, the pruner is held before its first commit,
+			// and an event query over blocks that stay retained runs with the prune making progress
+			// at a tape-chosen read of the query. The answer must be exact all the same.
+			if len(m.Chain) < 3 {
+				continue
+			}
+			graceful := t.Draw("race.graceful", 2) == 1
+			sharp := backlog == -1
+			if sharp {
+				// ungraceful stop: the event index has to be rebuilt from the headers, from the floor up
+				graceful, backlog = false, 0
+			}
+			p.stop()
+			if graceful {
+				_ = p.n.BC.WriteRunningEventFilter()
+			}
+			unlock()
+			p.attach(p.n.St)
+			hookImages(p.n)
+			head := m.Head().B.Number
+			// the L1 path prunes only while the L1 head lags behind the local head
+			lowest := uint64(0)
+			if hasL1 {
+				lowest = l1
+			}
+			num := lowest
+			if lowest < head {
+				num = head - 1 - uint64(t.Draw("race.l1.lag", int(head-lowest)))
+			}
+			l1, hasL1 = num, true
+			lh := &core.L1Head{BlockNumber: num, BlockHash: felt.NewFromUint64[felt.Felt](num + 1), StateRoot: felt.NewFromUint64[felt.Felt](num + 2)}
+			if int(num) < len(m.Chain) {
+				lh = l1HeadFor(m.Chain[num])
+			}
+			noteBound()
+			c.Logf("restart (graceful=%v), L1 head -> %d with the prune held (local head %d)", graceful, num, head)
+			p.hold = true
+			if err := p.n.BC.SetL1Head(lh); err != nil {
+				c.Fail("valid_op_failed", "set L1", "SetL1Head: %v", err)
+			}
+			m.L1Head = lh
+			synctest.Wait()
+			if p.parked {
+				c.Probe("prune_held_before_first_commit")
+				at, batches, reads, done := 1+t.Draw("race.read", 10), 1+t.Draw("race.batches", 3), 0, false
+				if sharp {
+					// the whole prune runs inside the reader, at one of its first reads
+					at, batches = 1+t.Draw("race.read.sharp", 5), 8
+				}
+				p.n.FDB.Plan.BeforeRead = func(kind string) {
+					reads++
+					if done || reads != at {
+						return
+					}
+					done = true
+					for i := 0; i < batches && p.parked; i++ {
+						c.Logf("  prune batch released before read %d (%s) of the query", reads, kind)
+						p.resume <- struct{}{}
+						synctest.Wait()
+						c.Fault("prune_batch_inside_reader")
+					}
+				}
+				f := genFilter(c, d.g, head)
+				if lo := uint64(max(allowed, 0)); f.from < lo {
+					f.from = lo
+				}
+				if f.to < f.from {
+					f.to = head
+				}
+				(&checker{n: p.n, m: m}).CheckEvents(f, []uint64{evChunks[t.Draw("ev.chunk", len(evChunks))]}, []uint{0})
+				p.n.FDB.Plan.BeforeRead = nil
+				if done {
+					c.Probe("query_raced_a_prune")
+				}
+			}
+			p.hold = false
+			if p.parked {
+				p.resume <- struct{}{}
+			}
 		case op <= 13:
 			dur := time.Duration(1+t.Draw("sleep.min", 120)) * time.Minute
 			if minAge > 0 && t.Draw("sleep.long", 2) == 1 {
